@@ -100,6 +100,13 @@ pub fn to_json(s: &[Decision], img: &FsImage) -> Value {
                         json!({ "op": "disk_full", "errno": "ENOSPC", "after_bytes": at })
                     }
                 }
+                Decision::SpawnFault { at } => {
+                    if *at == crate::world::NO_FAULT {
+                        json!({ "op": "thread_spawn_error", "errno": "none" })
+                    } else {
+                        json!({ "op": "thread_spawn_error", "errno": "EAGAIN", "at_spawn": at })
+                    }
+                }
                 Decision::StatFault { at } => {
                     if *at == crate::world::NO_FAULT {
                         json!({ "op": "stat_error", "errno": "none" })
@@ -194,6 +201,11 @@ pub fn from_json(v: &Value, img: &FsImage) -> Result<Vec<Decision>, String> {
             Some("read_error") => {
                 if let Some(at) = e["at_read"].as_u64() {
                     out.push(Decision::ReadFault { at });
+                }
+            }
+            Some("thread_spawn_error") => {
+                if let Some(at) = e["at_spawn"].as_u64() {
+                    out.push(Decision::SpawnFault { at });
                 }
             }
             Some("stat_error") => {
